@@ -7,7 +7,7 @@ package aggregator
 // ---------------------------------------------------------------- AddMaybe (C03, C11)
 // An aggregation consumes exactly the names its complete filter accepts; with drop-raw the
 // caller is told to withhold exactly those.
-//@ spec aggWf(a *Aggregator) := wfm(a.Matcher) && a.in != nil && !a.reCacheMutex.held && a.Matcher.regex != nil
+//@ spec aggWf(a *Aggregator) := wfm(a.Matcher) && a.in != nil && !closed(a.in) && !a.reCacheMutex.held && a.Matcher.regex != nil
 //@
 // The per-aggregator match cache is coherent: a cached entry holds the uncached answer. It is
 // established by the constructor (empty cache), preserved by every lookup/insert and by the
@@ -17,7 +17,8 @@ package aggregator
 //@
 //@ func (a *Aggregator) matchWithCache(key []byte) (out string, ok bool)
 //@   property C03
-//@   requires aggWf(a) && cacheOK(a)
+//@   requires aggWf(a)
+//@   objinv cacheOK(a)
 //@   modifies a.reCacheMutex.held, a.reCache[..], allof("aggregator.CacheEntry.match"), allof("aggregator.CacheEntry.key"), allof("aggregator.CacheEntry.seen")
 //@   ensures[uncached_answer] ok == reOK(a.Matcher, key[..])
 //@   ensures[expanded]        ok ==> out == reExpand(a.Matcher.Regex, key[..], a.outFmt[..])
@@ -27,7 +28,8 @@ package aggregator
 //@ func (a *Aggregator) AddMaybe(buf [][]byte, val float64, ts uint32) bool
 //@   property C03,C11
 //@   logged
-//@   requires len(buf) >= 1 && aggWf(a) && cacheOK(a)
+//@   requires len(buf) >= 1 && aggWf(a)
+//@   objinv cacheOK(a)
 //@   modifies sent(a.in), a.reCacheMutex.held, a.reCache[..], allof("aggregator.CacheEntry.match"), allof("aggregator.CacheEntry.key"), allof("aggregator.CacheEntry.seen")
 //@   ensures[drop_exact; C03,C11] result == (a.DropRaw && matchSpec(a.Matcher, buf[0][..]))
 //@   ensures[unlocked] !a.reCacheMutex.held
@@ -35,4 +37,5 @@ package aggregator
 
 //@ func (a *Aggregator) Shutdown()
 //@   trusted
+//@   requires a.shutdown != nil && !closed(a.shutdown)
 //@   modifies closed(a.shutdown), a.wg.n
